@@ -10,15 +10,15 @@ A_, T0, M0, X0, TP, PP = var('A'), var('T0'), var('m0'), var('x0'), var('Tp'), v
 
 
 class Config:
-    def __init__(s, func, mode='vacuum', program=False, comp_type='weight', curves='one', initial=False, model='NRTL', swapped=False, curve_type='weight'):
-        s.curve_type = curve_type; s.func = func; s.mode = mode; s.program = program; s.comp_type = comp_type; s.curves = curves; s.initial = initial; s.model = model; s.swapped = swapped
+    def __init__(s, func, mode='vacuum', program=False, comp_type='weight', curves='one', initial=False, model='NRTL', swapped=False, curve_type='weight', init_units='kg/(m2*h*kPa)'):
+        s.init_units = init_units; s.curve_type = curve_type; s.func = func; s.mode = mode; s.program = program; s.comp_type = comp_type; s.curves = curves; s.initial = initial; s.model = model; s.swapped = swapped
         s.ideal = func.startswith('ideal'); s.iso = 'non_isothermal' not in func
 
     def tag(s):
         t = "%s.%s" % (s.func.replace('_process', ''), s.mode)
         if s.program: t += ".program"
         if s.comp_type != 'weight': t += ".molar-feed"
-        if not s.ideal: t += ".%s-curve%s%s" % (s.curves, ".initial-permeances" if s.initial else "", ".molar-curves" if s.curve_type != 'weight' else "")
+        if not s.ideal: t += ".%s-curve%s%s" % (s.curves, ".initial-permeances" if s.initial else "", ".molar-curves" if s.curve_type != 'weight' else "") + ("" if s.init_units.startswith('kg') else ".initial-in-" + s.init_units)
         if s.model != 'NRTL': t += "." + s.model
         return t
 
@@ -65,7 +65,7 @@ def inputs(src, cfg, mix=None):
     kw = dict(conditions=cond, number_of_steps=N, delta_hours=DT, precision=PREC, calculation_type=cfg.model)
     if not cfg.ideal:
         kw['diffusion_curve_set'] = curve_set(src, mix, cfg.curves, cfg.curve_type)
-        if cfg.initial: kw['initial_permeances'] = (W.permeance(src, var('Pi1')), W.permeance(src, var('Pi2')))
+        if cfg.initial: kw['initial_permeances'] = (W.permeance(src, var('Pi1'), cfg.init_units), W.permeance(src, var('Pi2'), cfg.init_units))
     return pv, kw
 
 
